@@ -266,6 +266,19 @@ mut("C02", "inelastic-force-no-thickness", E + "Simulations/_inelastic.py", "   
 mut("C02", "weakform-mass-no-thickness", E + "Simulations/_weakforms.py", "            M_e = computeM.Integrate_e(field) * thickness", "            M_e = computeM.Integrate_e(field)", "R2.10")
 mut("C02", "elastic-thickness-twice-in-damping", E + "Simulations/_elastic.py", "            C_e = self.__coefK * K_e + self.__coefM * M_e\n", "            C_e = (self.__coefK * K_e + self.__coefM * M_e) * self.material.thickness\n", "R2.10")
 same("C02", "elastic-thickness-at-construction", E + "Simulations/_elastic.py", "            if self.dim == 2:\n                thickness = self.material.thickness\n                K_e *= thickness\n                M_e *= thickness\n", "            thickness = self.material.thickness if self.dim == 2 else 1.0\n            K_e = thickness * K_e\n            M_e = M_e * thickness\n")
+mut("C03", "complex-imaginary-part-dropped", E + "Simulations/_simu.py", "            ) + 1j * np.bincount(inv, weights=data.imag, minlength=nnz)\n", "            )\n", "R3.9")
+mut("C03", "complex-parts-swapped", E + "Simulations/_simu.py", "                inv, weights=data.real, minlength=nnz\n            ) + 1j * np.bincount(inv, weights=data.imag, minlength=nnz)", "                inv, weights=data.imag, minlength=nnz\n            ) + 1j * np.bincount(inv, weights=data.real, minlength=nnz)", "R3.9")
+mut("C13", "complex-form-kept-real", E + "FEM/_forms.py", "                if np.iscomplexobj(values_e) and not np.iscomplexobj(data):\n                    data = data.astype(complex)  # a complex form keeps its imaginary part\n", "", "R13.8")
+mut("C08", "image-path-any-order", E + "FEM/_group_elem.py", "            coordinatesInImage = np.array_equal(\n                coordinates_n[:, 0], pixels % nX\n            ) and np.array_equal(coordinates_n[:, 1], pixels // nX)\n", "            coordinatesInImage = True\n", "R8.16")
+mut("C08", "image-path-far-bound", E + "FEM/_group_elem.py", "                np.floor(coordElem[:, 0].max()) + 1,", "                np.ceil(coordElem[:, 0].max()),", "R8.16")
+mut("C17", "eigen-double-halves", E + "Models/_phasefield.py", "                M3[case2] = line_in_plane(eye3 - M1_c2)\n", "                M3[case2] = 0.5 * (eye3 - M1_c2)\n", "R17.12")
+mut("C17", "eigen-case2-wrong-root", E + "Models/_phasefield.py", "                eps2 = val2_e_pg[case2][:, None, None]\n", "                eps2 = val1_e_pg[case2][:, None, None]\n", "R17.12")
+mut("C17", "eigen-case3-values", E + "Models/_phasefield.py", "                val3_e_pg[case3] += 2 / 3 * sg\n", "                val3_e_pg[case3] += 1 / 3 * sg\n", "R17.12")
+mut("C17", "theta-limit-dropped", E + "Models/_phasefield.py", "                eq23, dvalp[..., 1] / 2, (valp[..., 1] - valp[..., 2]) / (2 * v2_m_v3)", "                eq23, 0.0 * dvalp[..., 1], (valp[..., 1] - valp[..., 2]) / (2 * v2_m_v3)", "R17.13")
+mut("C17", "projp-diagonal-weight", E + "Models/_phasefield.py", "        dvalp = np.heaviside(val_e_pg, 0.5)\n", "        dvalp = np.heaviside(val_e_pg, 1.0)\n", "R17.13")
+same("C17", "eigen-plane-direction-other-axis", E + "Models/_phasefield.py", "            k = np.argmax(np.linalg.norm(P, axis=-2), axis=-1)\n", "            k = np.argmax(np.linalg.norm(P, axis=-1), axis=-1)\n")
+mut("C17", "arccos-unclipped", E + "Models/_phasefield.py", "            np.clip(arg, -1.0, 1.0, out=arg)\n", "", "R17.14")
+same("C17", "arccos-clip-inline", E + "Models/_phasefield.py", "            np.clip(arg, -1.0, 1.0, out=arg)\n\n            # Lode's angle such that 0 <= theta <= pi/3\n            theta = 1 / 3 * np.arccos(arg)", "            # Lode's angle such that 0 <= theta <= pi/3\n            theta = 1 / 3 * np.arccos(np.clip(arg, -1.0, 1.0))")
 mut("C18", "op-no-geometric-tangent", E + "FEM/Operators/NonLinear.py", "    return A_lin + A_geo, residual_e", "    return A_lin, residual_e", "R18.12")
 mut("C18", "op-reorder-transposes", E + "FEM/Operators/NonLinear.py", "            reordered[i] = array[:, ri, rj]", "            reordered[i] = array[:, rj, ri]", "R18.12")
 mut("C18", "op-kv-tangent-swapped", E + "FEM/Operators/NonLinear.py", "    A_mat = material.eta * einsum(subscripts, wJ_e_pg, B_e_pg, Beta_e_pg)", "    A_mat = material.eta * einsum(subscripts, wJ_e_pg, Beta_e_pg, B_e_pg)", "R18.12")
